@@ -1,5 +1,7 @@
 """Adapters that call the real oslo.policy code in-process and canonicalise what comes back."""
+import json
 import logging
+import zlib
 
 from oslo_config import cfg
 from oslo_policy import _parser, opts, policy
@@ -49,6 +51,26 @@ def outcome(fn):
     return 'allow' if r else 'deny'
 
 
+def install_rules(e, rules_dict, overwrite=True):
+    """Hand a rule set to an enforcer in one of the ways a service may (all equivalent by the set_rules contract: the
+    enforcer re-wraps whatever it is given with its own default rule). The way is a function of the rule set itself, so
+    a replay of the same case installs it the same way."""
+    how = zlib.crc32(repr(sorted(rules_dict.items(), key=lambda kv: repr(kv[0]))).encode('utf-8', 'replace')) % 4
+    if how == 0:
+        rules = policy.Rules.from_dict(rules_dict, e.default_rule)
+    elif how == 1:
+        rules = policy.Rules.from_dict(rules_dict)                       # a Rules object without a default rule
+    elif how == 2:
+        rules = {k: _parser.parse_rule(v) for k, v in rules_dict.items()}  # a plain dict of checks
+    else:
+        try:
+            rules = policy.Rules.load(json.dumps(rules_dict))            # as read from a policy file's text
+        except (TypeError, ValueError):
+            rules = policy.Rules.from_dict(rules_dict)
+    e.set_rules(rules, overwrite=overwrite, use_conf=False)
+    return how
+
+
 class Enf:
     """A real Enforcer that does not read files (use_conf=False): rules come from set_rules."""
 
@@ -57,7 +79,7 @@ class Enf:
         self.e = policy.Enforcer(self.conf, use_conf=False, default_rule=default_rule)
 
     def set_rules(self, rules_dict):
-        self.e.set_rules(policy.Rules.from_dict(rules_dict, self.e.default_rule), use_conf=False)
+        install_rules(self.e, rules_dict)
 
     def decide(self, name, target, creds, **kw):
         return outcome(lambda: self.e.enforce(name, target, creds, **kw))
